@@ -308,6 +308,30 @@ func Row(cols []script.Col, nullPct int, reps bool) *rapid.Generator[[]script.Va
 	})
 }
 
+// MaybeBig occasionally replaces one text / bytea value of a row a handler writes by one of 4-9 KB (a
+// DataRow larger than a page, after and before rows of a few bytes).
+func MaybeBig(t *rapid.T, vals []script.Val) []script.Val {
+	if rapid.IntRange(0, 24).Draw(t, "big-value?") != 7 {
+		return vals
+	}
+	for i := range vals {
+		v := &vals[i]
+		if v.IsNull() || v.Bad {
+			continue
+		}
+		n := rapid.SampledFrom([]int{4090, 4096, 5000, 9000}).Draw(t, "big-size")
+		switch v.T {
+		case "text", "varchar":
+			v.S, v.SB = strings.Repeat("big-", n/4), nil
+			return vals
+		case "bytea":
+			v.Y = []byte(strings.Repeat("BIG-", n/4))
+			return vals
+		}
+	}
+	return vals
+}
+
 // Segments generates a read segmentation plan: nil (unbounded), all ones, or
 // a list of small sizes.
 func Segments() *rapid.Generator[[]int] {
@@ -333,7 +357,7 @@ func Ops(cols []script.Col, maxOps int, withErr bool) *rapid.Generator[[]script.
 		for i := 0; i < n; i++ {
 			switch rapid.IntRange(0, 11).Draw(t, "op") {
 			case 0, 1, 2, 3:
-				ops = append(ops, script.Op{K: "row", Vals: Row(cols, 15, false).Draw(t, "row")})
+				ops = append(ops, script.Op{K: "row", Vals: MaybeBig(t, Row(cols, 15, false).Draw(t, "row"))})
 			case 4: // wrong arity
 				k := rapid.SampledFrom([]int{0, len(cols) - 1, len(cols) + 1}).Draw(t, "arity")
 				if k < 0 {
@@ -402,4 +426,4 @@ func Outcome(types []string, maxStmts, maxCols, maxOps int) *rapid.Generator[scr
 }
 
 // QueryNames are distinctive query texts used as table keys.
-var QueryNames = []string{"select 1", "select a from t", "insert into t values (1)", "Q3 é", "update t set a = $1", "delete from t", "q6"}
+var QueryNames = []string{"select 1", "select a from t", "insert into t values (1)", "Q3 é", "update t set a = $1", "delete from t", "q6", "call panics()"}
